@@ -8,6 +8,7 @@ import (
 	"fmt"
 	"io"
 	"os"
+	"strings"
 	"testing"
 	"testing/synctest"
 	"time"
@@ -651,4 +652,40 @@ func TestC03Regress(t *testing.T) {
 			}
 		}
 	}
+}
+
+// FuzzC03: coverage-guided byte-level search with the differential oracle inside
+// the target (thorough tier). The first byte selects the (role, compression)
+// setting, the rest is the inbound stream.
+func FuzzC03(f *testing.F) {
+	for _, rc := range c03Regress {
+		b, _ := hex.DecodeString(rc.Hex)
+		for i := range c03Modes {
+			if c03Modes[i].Name == rc.Mode {
+				f.Add(append([]byte{byte(i)}, b...))
+			}
+		}
+	}
+	// hostile constants: length markers, sync tail, BFINAL blocks, close payloads
+	for _, h := range []string{"007e", "007f", "00ff", "04817e0000", "02827f0000000000010000", "05c1020000ffff", "03c10301000000ffff", "0188020 3e8", "0189007d", "008a00", "0141013088 0203e8"} {
+		b, err := hex.DecodeString(strings.ReplaceAll(h, " ", ""))
+		if err == nil {
+			f.Add(b)
+		}
+	}
+	f.Fuzz(func(t *testing.T, data []byte) {
+		if len(data) < 1 || len(data) > 1<<16 {
+			t.Skip()
+		}
+		mode := c03Modes[int(data[0])%len(c03Modes)]
+		stream := data[1:]
+		frames := rawFrames(stream)
+		var msg string
+		synctest.Test(t, func(t *testing.T) {
+			msg = runC03(t, mode, frames, stream, nil, 0, 1+int(data[0])%97, 1<<20, nil)
+		})
+		if msg != "" {
+			t.Fatalf("C03 fuzz mode=%s stream=%x: %s", mode.Name, stream, msg)
+		}
+	})
 }
